@@ -1,5 +1,7 @@
 #include "vqt.h"
 
+#include <algorithm>
+
 namespace vqt {
 
 Globals &G() { static Globals g; return g; }
@@ -36,6 +38,7 @@ VThread *VObject::thread() const { return m_affinity ? m_affinity : mainThreadOb
 VObject::~VObject()
 {
     G().live.erase(this);
+    disconnect(this);                    // connections die with their context object (R8)
     // QObject's destructor removes the events still posted to it
     for (VThread *t : threads()) {
         for (auto it = t->queue.begin(); it != t->queue.end();) {
@@ -44,8 +47,33 @@ VObject::~VObject()
     }
 }
 
+void VObject::deleteLater()
+{
+    if (m_deleteLater) return;          // Qt posts only one DeferredDelete per object
+    m_deleteLater = true;
+    if (vs::active()) vs::point("post");
+    Posted p { this, nullptr, nullptr, true };
+    thread()->queue.push_back(p);
+}
+bool VObject::disconnect(VObject *, std::nullptr_t, VObject *context, std::nullptr_t) { return context ? context->disconnect(context) : false; }
+bool VObject::disconnect(VObject *context)
+{
+    // drop the connections whose context object is `context` (or this) — the shapes the library could use
+    VObject *c = context ? context : this;
+    for (VThread *t : threads()) { auto &v = t->finishedCtx; v.erase(std::remove_if(v.begin(), v.end(), [c](const VThread::Ctx &x) { return x.ctx == c; }), v.end()); }
+    if (VCoreApp::self) { auto &v = VCoreApp::self->aboutToQuitConns; v.erase(std::remove_if(v.begin(), v.end(), [c](const VCoreApp::Ctx &x) { return x.ctx == c; }), v.end()); }
+    return true;
+}
+
 VThread::VThread() { threads().insert(this); }
-VThread::~VThread() { threads().erase(this); for (auto &p : queue) delete p.ev; }
+VThread::~VThread()
+{
+    if (vs::active() && m_started && m_running && !m_finished)
+        vs::violation("touches-destroyed-object", "a QThread object is destroyed while its thread is still running");
+    threads().erase(this);
+    if (G().lastStarted == this) G().lastStarted = nullptr;
+    for (auto &p : queue) delete p.ev;
+}
 
 void VThread::start()
 {
@@ -53,7 +81,8 @@ void VThread::start()
     if (m_running) return;
     m_running = true; m_finished = false; m_started = true;
     m_exit = false;                      // R3: start() clears a quit() issued earlier
-    m_tid = vs::spawn([this] { run(); }, "qthread");
+    G().lastStarted = this;
+    m_tid = vs::spawn([this] { threadBody(); }, "qthread");
 }
 void VThread::quit()
 {
@@ -80,6 +109,10 @@ void VThread::terminate()
 static void deliver(VThread *t, Posted &p)
 {
     bool isMain = (t == mainThreadObject());
+    if (p.deferredDelete) {              // R9
+        if (alive(p.receiver)) delete p.receiver;
+        return;
+    }
     if (!isMain && !VCoreApp::self) {    // R4: events for secondary threads are discarded once the application object is gone
         t->discarded++;
         delete p.ev;
@@ -92,9 +125,8 @@ static void deliver(VThread *t, Posted &p)
     t->delivered++;
     delete p.ev;
 }
-void VThread::run()
+int VThread::exec()
 {
-    setCurrentThreadObject(this);
     vs::point("thread-exec");
     if (!m_exit) {                       // R3: quit() between start() and exec() makes exec() return at once
         for (;;) {
@@ -109,8 +141,19 @@ void VThread::run()
             if (m_exit) break;           // R2: exit flag looked at between batches
         }
     }
+    m_exit = false;
+    return 0;
+}
+void VThread::threadBody()
+{
+    setCurrentThreadObject(this);
+    run();
     m_running = false;
     emitFinished();
+    // QThreadPrivate::finish: pending deferred deletes of this thread are carried out
+    for (auto it = queue.begin(); it != queue.end();) {
+        if (it->deferredDelete) { Posted p = *it; it = queue.erase(it); if (alive(p.receiver)) delete p.receiver; it = queue.begin(); } else ++it;
+    }
     m_finished = true;
 }
 void VThread::emitFinished()
@@ -120,7 +163,8 @@ void VThread::emitFinished()
 }
 
 VCoreApp *VCoreApp::self = nullptr;
-VCoreApp::VCoreApp() { self = this; }
+bool VCoreApp::everCreated = false;
+VCoreApp::VCoreApp() { self = this; everCreated = true; }
 VCoreApp::~VCoreApp() { self = nullptr; }
 
 void VCoreApp::postEvent(VObject *receiver, QEvent *ev, int)
@@ -144,15 +188,45 @@ void VCoreApp::quit()
     vs::point("app-quit");
     if (self) self->m_quit = true;
 }
-void VCoreApp::processEvents()
+// processEvents() outside any running loop: queued calls and events are delivered, DeferredDelete events stay queued (R9)
+static void mainBatch(bool deferredDeletes)
 {
     VThread *m = mainThreadObject();
+    std::deque<Posted> keep;
     for (size_t n = m->queue.size(); n > 0 && !m->queue.empty(); n--) {
         Posted p = m->queue.front();
         m->queue.pop_front();
+        if (p.deferredDelete && !deferredDeletes) { keep.push_back(p); continue; }
         vs::point("main-deliver");
         deliver(m, p);
     }
+    for (auto it = keep.rbegin(); it != keep.rend(); ++it) m->queue.push_front(*it);
+}
+void VCoreApp::processEvents() { mainBatch(false); }
+void VCoreApp::runLocalLoopUntilIdle()
+{
+    VThread *m = mainThreadObject();
+    for (int guard = 0; guard < 100 && !m->queue.empty(); guard++) mainBatch(true);
+}
+void VCoreApp::sendPostedEvents(VObject *receiver, int)
+{
+    // only the calling thread's own queue is looked at (Qt: "events for objects living in another thread are not dispatched")
+    VThread *t = currentThreadObject();
+    for (size_t n = t->queue.size(), i = 0; i < n && !t->queue.empty(); i++) {
+        Posted p = t->queue.front();
+        t->queue.pop_front();
+        if (p.deferredDelete || (receiver && p.receiver != receiver)) { t->queue.push_back(p); continue; }
+        vs::point("send-posted");
+        deliver(t, p);
+    }
+}
+void VCoreApp::removePostedEvents(VObject *receiver, int)
+{
+    vs::point("remove-posted");
+    for (VThread *t : threads())
+        for (auto it = t->queue.begin(); it != t->queue.end();) {
+            if ((!receiver || it->receiver == receiver) && !it->deferredDelete) { delete it->ev; it = t->queue.erase(it); } else ++it;
+        }
 }
 int VCoreApp::exec()
 {
@@ -160,8 +234,8 @@ int VCoreApp::exec()
     VThread *m = mainThreadObject();
     for (;;) {
         vs::point("app-exec", [m] { return (self && self->m_quit) || !m->queue.empty(); });
-        processEvents();
-        if (self->m_quit) break;
+        mainBatch(true);
+        if (!self || self->m_quit) break;
     }
     // R7: aboutToQuit is emitted when exec() returns, once
     auto conns = self->aboutToQuitConns;
